@@ -124,6 +124,26 @@ type ShapeTagsDisagree struct {
 	Opt    *string `cbor:"82,keyasint" json:"opt,omitempty"`
 }
 
+// an integer-kind type with a TEXT form (encoding.TextMarshaler): JSON writes
+// the text, CBOR the number
+type Level int
+
+func (l Level) MarshalText() ([]byte, error) { return []byte(fmt.Sprintf("L%d", int(l))), nil }
+func (l *Level) UnmarshalText(b []byte) error {
+	var v int
+	if _, err := fmt.Sscanf(string(b), "L%d", &v); err != nil {
+		return err
+	}
+	*l = Level(v)
+	return nil
+}
+
+type ShapeEnum struct {
+	Lvl    Level  `cbor:"90,keyasint" json:"lvl"`
+	OptLvl *Level `cbor:"91,keyasint,omitempty" json:"optlvl,omitempty"`
+	On     bool   `cbor:"92,keyasint" json:"on"`
+}
+
 type ShapeEmpty struct{}
 
 type ShapeAllOptional struct {
@@ -245,6 +265,15 @@ func expectedAfter(s shape, format string) any {
 	return stripHidden(s)
 }
 
+func (s *ShapeEnum) fields() []fd {
+	r := []fd{{90, "lvl", false, true, icbor.I(int64(s.Lvl)), fmt.Sprintf("L%d", int(s.Lvl))}}
+	if s.OptLvl != nil {
+		r = append(r, fd{91, "optlvl", true, true, icbor.I(int64(*s.OptLvl)), fmt.Sprintf("L%d", int(*s.OptLvl))})
+	} else {
+		r = append(r, fd{91, "optlvl", true, false, icbor.Null(), nil})
+	}
+	return append(r, fd{92, "on", false, true, icbor.Bool(s.On), s.On})
+}
 func (s *ShapeFold) fields() []fd {
 	return []fd{fPtrStr(60, "hwver", true, s.HwVer), fPtrStr(61, "HWVER", true, s.HwVerV2), fInt(62, "serial", false, s.Serial), fPtrInt(63, "k", true, s.K), fPtrInt(64, "\u212a", true, s.Kelvin)}
 }
@@ -614,18 +643,25 @@ func c15CheckJSON(s shape, fresh func() any, plainComparable bool) string {
 }
 
 func TestC15_Shapes(t *testing.T) {
-	st := NewStats("C15", "TestC15_Shapes", "rapid: fourteen hand-declared struct shapes following the claims convention (flat; one- and two-level embedded struct; embedded interface holding a struct pointer, a struct by value, or nil; empty struct; all-optional struct; a struct whose JSON member names differ only by (Unicode) case; an embedded struct of an unexported type; tag options with omitempty before keyasint; a named field called like its struct type; cbor and json tags that disagree about '-' and omitempty) x random field values x random subsets of optional fields set. CBOR: output parsed by the independent reader must be ONE definite map whose entries equal, in declaration order, the hand-written union of outer+embedded fields honouring omitempty and '-'; populate(serialise(x)) == x; for shapes without embedding the decoded map equals the plain marshaller's; bytes stable; deleting any non-optional key or duplicating a key makes populate fail. JSON likewise (no duplicate clause; a differently-cased spelling of a missing non-optional member does not stand in for it). Non-trivial = has an embedded level, or is the empty/all-absent struct; distinct = shape + presence mask")
-	st.Require = []string{"flat", "embedded-1", "embedded-2", "embedded-iface", "embedded-iface-nil", "embedded-iface-value", "case-fold-names", "embedded-unexported-type", "tag-option-order", "field-named-as-type", "tags-disagree", "empty", "all-optional", "zero-entries"}
+	st := NewStats("C15", "TestC15_Shapes", "rapid: fifteen hand-declared struct shapes following the claims convention (flat; one- and two-level embedded struct; embedded interface holding a struct pointer, a struct by value, or nil; empty struct; all-optional struct; a struct whose JSON member names differ only by (Unicode) case; an embedded struct of an unexported type; tag options with omitempty before keyasint; a named field called like its struct type; cbor and json tags that disagree about '-' and omitempty; an integer-kind field type with a text form) x random field values x random subsets of optional fields set. CBOR: output parsed by the independent reader must be ONE definite map whose entries equal, in declaration order, the hand-written union of outer+embedded fields honouring omitempty and '-'; populate(serialise(x)) == x; for shapes without embedding the decoded map equals the plain marshaller's; bytes stable; deleting any non-optional key or duplicating a key makes populate fail. JSON likewise (no duplicate clause; a differently-cased spelling of a missing non-optional member does not stand in for it). Non-trivial = has an embedded level, or is the empty/all-absent struct; distinct = shape + presence mask")
+	st.Require = []string{"flat", "embedded-1", "embedded-2", "embedded-iface", "embedded-iface-nil", "embedded-iface-value", "case-fold-names", "embedded-unexported-type", "tag-option-order", "field-named-as-type", "tags-disagree", "text-marshaler-enum", "empty", "all-optional", "zero-entries"}
 	defer st.Flush(t)
 	rapid.Check(t, func(t *rapid.T) {
 		s, fresh, name := drawShape(t)
 		switch rapid.IntRange(0, 7).Draw(t, "special") {
 		case 0:
 			s, fresh, name = &ShapeNamedAsType{Version: Version{Major: drawInt(t, "major"), Minor: drawInt(t, "minor")}, N: drawOptInt(t, "n")}, func() any { return &ShapeNamedAsType{} }, "field-named-as-type"
+		case 2:
+			e := &ShapeEnum{Lvl: Level(rapid.IntRange(-3, 300).Draw(t, "lvl")), On: genBool.Draw(t, "on")}
+			if genBool.Draw(t, "optlvl") {
+				l := Level(rapid.IntRange(0, 70000).Draw(t, "optlvl.v"))
+				e.OptLvl = &l
+			}
+			s, fresh, name = e, func() any { return &ShapeEnum{} }, "text-marshaler-enum"
 		case 1:
 			s, fresh, name = &ShapeTagsDisagree{Debug: drawStr(t, "debug"), Count: drawOptInt(t, "count"), Secret: drawStr(t, "secret"), Opt: drawOptStr(t, "opt")}, func() any { return &ShapeTagsDisagree{} }, "tags-disagree"
 		}
-		plain := name == "flat" || name == "empty" || name == "all-optional" || name == "tag-option-order" || name == "field-named-as-type" || name == "tags-disagree"
+		plain := name == "flat" || name == "empty" || name == "all-optional" || name == "tag-option-order" || name == "field-named-as-type" || name == "tags-disagree" || name == "text-marshaler-enum"
 		if msg := c15CheckCBOR(s, fresh, plain); msg != "" {
 			t.Fatalf("C15 violated (CBOR, shape %s): %s", name, msg)
 		}
